@@ -26,11 +26,7 @@ RULE = ("case = one point of a union of complete sub-lattices; inside a case eve
         "fixed direction)}; batch: (A, M) batch patterns {2|, |2} on n = 3; svd: shape x k x mode x {sep, rep} x "
         "{P1: A = leaf, P2: A = U(leaf) diag(s(leaf)) V(leaf)^H}.  Second order at an exact degeneracy inside the "
         "selected set under P1 is informational (not judged).  distinct = distinct rounded observation")
-RULE_ADDED = ("Added later: spectrum deg0 (null-space cluster) and 'near' (caller-supplied degeneracy tolerances, b"
-              'ackward twice on the retained graph), mixed batch (one degenerate, one separated element), basis {ro'
-              'tated, identity, lowest / uppermost state decoupled}: operators in their own eigenbasis make the shi'
-              'fted systems of the implicit backward exactly singular. Round 4: opkind mfree_nd (first declared par'
-              'ameter does not require grad, a later one does).')
+RULE_ADDED = "Added later: spectrum deg0 (null-space cluster) and 'near' (caller-supplied degeneracy tolerances, backward twice on the retained graph), mixed batch (one degenerate, one separated element), basis {rotated, identity, lowest / uppermost state decoupled}: operators in their own eigenbasis make the shifted systems of the implicit backward exactly singular. Round 4: opkind mfree_nd (first declared parameter does not require grad, a later one does). Rounds 5-6: svd of operators implementing _mv only; explicit zero degeneracy tolerances (one / both); debug mode during forward and backward."
 ASSUMPTIONS = [
     "losses are gauge invariant and cluster complete; neig never cuts an exactly degenerate cluster",
     "second-order gradients at an exact degeneracy in degeneracy-breaking directions (P1, cluster inside the "
